@@ -2,6 +2,7 @@ import sys, os
 sys.path.insert(0, os.path.join(os.path.dirname(__file__), '..', 'common'))
 from vf import Unit, Entry
 import leafnum_pieces as L
+import mpoly_pieces as M
 
 META = {"level": "proof"}
 
@@ -11,9 +12,11 @@ def units(tier):
     u = Unit('leafnum', 'C02', 'contracts/common/leafnum.cpp', {'hc.inc': L.hc_pieces(), 'leaf.inc': L.leaf_pieces()},
              ents, route='F', trusted=L.TRUSTED,
              assumptions=["compare() of composite classes (Add, Mul, Pow, functions, sets) is NOT under contract in this unit"])
-    return [u, L.composite_unit('C02', Unit, Entry)]
+    return [u, L.composite_unit('C02', Unit, Entry), M.mpoly_unit('C02')]
 
 def replay_args(obl, inputs, res):
+    if '.MIntPoly.' in obl:
+        return [obl]
     keep = ('A.', 'B.', 'C.', 'ka', 'kb', 'kc', 'pb_is_a')
     return [obl] + ["%s=%s" % (k, v.get("binary") or v.get("data")) for k, v in sorted(inputs.items())
                     if k.startswith(keep) and not k.endswith(('.self', '.p'))]
